@@ -9,4 +9,17 @@ def c20Mft (j : Json) : Except String Json := do
   let tables ← strList (← j.getObjVal? "tables")
   pure (jstrs (tables.map fun t => String.ofList (modelFromTable (models.map String.toList) t.toList)))
 
+/-- {"op":"c20.acyclic","graphs":[[[name,[deps..]],..],..]} → [acyclic? per graph] -/
+def c20Acyclic (j : Json) : Except String Json := do
+  let gs ← (← j.getObjVal? "graphs").getArr?
+  let out ← gs.toList.mapM fun g => do
+    let es ← g.getArr?
+    let edges ← es.toList.mapM fun e => do
+      let pr ← e.getArr?
+      match pr.toList with
+      | [n, ds] => pure ((← n.getStr?), (← strList ds))
+      | _ => throw "c20.acyclic: bad entry"
+    pure (Json.bool (Cyc.acyclic edges))
+  pure (Json.arr out.toArray)
+
 end SideVerif.Drive
